@@ -21,6 +21,9 @@ else:
 
 ASCII_RE = re.compile("([\x00-\x7f]+)")
 C1_CONTROL_CHARS_RE = re.compile("[\x80-\x9f]")
+UNICODE_SPACES_RE = re.compile(
+    "[\xa0\u1680\u2000-\u200a\u2028\u2029\u202f\u205f\u3000]"
+)
 
 
 def quote_match(match):
@@ -84,6 +87,7 @@ def _generate_unquoted_parts(string, only_printable=False, unsafe=None):
         # only be told apart once decoded
         if only_printable:
             c = C1_CONTROL_CHARS_RE.sub(quote_match, c)
+            c = UNICODE_SPACES_RE.sub(quote_match, c)
 
         yield c
 
